@@ -145,3 +145,42 @@ def synthetic_stats(model_bytes, rng):
           'min': np.array(a, dtype=np.float32).reshape(shape),
           'max': np.array(b, dtype=np.float32).reshape(shape)}
   return stats
+
+
+def own_stats(model_bytes, inputs):
+  """True per-tensor min/max of one forward pass per signature, collected by
+  the check's own interpreter instance (every subgraph, every float
+  non-constant tensor).  inputs: {signature key: [ {arg: array} ]}; several
+  samples are folded with the library's documented moving average
+  (0.95 old + 0.05 new, first sample initialises) in float32."""
+  from ai_edge_litert import interpreter as tfl
+  m = og.read(model_bytes)
+  it = tfl.Interpreter(
+      model_content=bytes(model_bytes),
+      experimental_op_resolver_type=tfl.OpResolverType.BUILTIN_WITHOUT_DEFAULT_DELEGATES,
+      experimental_preserve_all_tensors=True)
+  it.allocate_tensors()
+  stats = {}
+  for sd in m.signatureDefs:
+    key = sd.signatureKey.decode()
+    sgi = int(sd.subgraphIndex)
+    g = m.subgraphs[sgi]
+    runner = it.get_signature_runner(key)
+    for sample in inputs[key]:
+      runner(**sample)
+      for ti, t in enumerate(g.tensors):
+        if t.type != 0 or og.is_const(m, t):
+          continue
+        try:
+          v = it.get_tensor(ti, sgi)
+        except ValueError:
+          continue
+        name = og.tname(t)
+        mn = np.min(v, axis=None, keepdims=True)
+        mx = np.max(v, axis=None, keepdims=True)
+        if name not in stats:
+          stats[name] = {'min': mn, 'max': mx}
+        else:
+          stats[name] = {'min': 0.95 * stats[name]['min'] + (1.0 - 0.95) * mn,
+                         'max': 0.95 * stats[name]['max'] + (1.0 - 0.95) * mx}
+  return stats
